@@ -929,6 +929,9 @@ class Models:
             return Sym(K.Bool, f(P.str_t(ex_, a[0]), P.str_t(ex_, a[1])))
         return Builtin('re.fullmatch', fm)
 
+    def x_re_compile(self):
+        return Builtin('re.compile', lambda ex_, a, k: RegexObj(ex_, a[0]))
+
     def x_re(self):
         return ModuleVal(('ext', 're'))
 
@@ -1421,6 +1424,26 @@ class DatetimeClass(ExtObj):
 
     def m_fromtimestamp(self, ex, v, *a):
         return Sym(TimeU, P.ufn('time_from_stamp', [z3.IntSort()], TimeU.sort())(P.int_t(ex, v)))
+
+
+class RegexObj(ExtObj):
+    """re.compile(p): match / fullmatch / search are three different uninterpreted predicates of (pattern, text) (A-re)"""
+
+    def __init__(self, ex, pattern):
+        self.p = P.str_t(ex, pattern)
+
+    def _pred(self, ex, name, s):
+        ex.run.assumed.add('A-re')
+        return Sym(K.Bool, P.ufn(name, [z3.StringSort(), z3.StringSort()], z3.BoolSort())(self.p, P.str_t(ex, s)))
+
+    def m_fullmatch(self, ex, s, *a):
+        return self._pred(ex, 're_fullmatch', s)
+
+    def m_match(self, ex, s, *a):
+        return self._pred(ex, 're_match', s)
+
+    def m_search(self, ex, s, *a):
+        return self._pred(ex, 're_search', s)
 
 
 class LoggingModule(ExtObj):
